@@ -269,8 +269,9 @@ def tstep (t : T12) (line : String) : T12 × String :=
     | none => (t, "bad-op")
     | some b =>
       if t.xheld.isSome then (t, s!"bad lock: batch {b} holds capMu while PatchExpired call {t.xheld.getD 0} holds it") else
-      match tfire t (.first b) with
-      | some t' => if t'.s.capMu == some b then (t', "ok") else (t', s!"bad lock: the model counts before it locks (countAfterLock=no)")
+      -- (count-then-lock shape: the lock is the batch's second statement)
+      match tfire t (if t.cfg.countAfterLock then .first b else .second b) with
+      | some t' => if t'.s.capMu == some b then (t', "ok") else (t', s!"bad lock: not the model's lock step")
       | none => (t, s!"bad lock: batch {b} holds capMu while batch {(t.s.capMu.getD 0)} holds it in the model")
   | ["count", bs, cs] =>
     match bs.toNat?, cs.toNat? with
@@ -280,7 +281,7 @@ def tstep (t : T12) (line : String) : T12 × String :=
       match takeEarly t (m - c) with
       | none => (t, s!"bad count: {c} records counted, the model has {m} matching and only {(t.openDel.filter (fun k => t.s.recs.getD k false)).length} of them are being deleted")
       | some t1 =>
-        match tfire t1 (.second b) with
+        match tfire t1 (if t.cfg.countAfterLock then .second b else .first b) with
         | some t2 => if (t2.s.batch b).counted == c then (t2, "ok") else (t2, "bad count")
         | none => (t, "bad count: not a step")
     | _, _ => (t, "bad-op")
@@ -363,7 +364,11 @@ def tstep (t : T12) (line : String) : T12 × String :=
       | none => (t, "bad shift")
     | none => (t, "bad-op")
   | ["quiet", ms] =>
-    if some (matching t.s) == ms.toNat? then (t, "ok")
+    let fid := if !t.cfg.countAfterLock then "C12-count-before-capmu"
+      else if !t.cfg.createPreFalse then "C12-create-counts-as-prematched"
+      else if !t.cfg.expiredCountsAll then "C12-patchexpired-counts-expiring-records-only"
+      else "C12-patchexpired-releases-capmu-early"
+    if some (matching t.s) == ms.toNat? then (t, "ok" ++ (if matching t.s > t.s.max then "\t#F:" ++ fid else ""))
     else (t, s!"bad quiet: {ms} records match, model {matching t.s}")
   | ["hang"] => (t, "bad hang: an RPC never returned")
   | _ => (t, "bad-op")
